@@ -189,6 +189,9 @@ def decide(prop, tier, seed, repo, workdir, a, t0):
             m = _re.match(r"(frame\.store_sites/frame\[[^\]]+\])", name)
             if m and any(k.startswith(m.group(1)) for k in baseline):
                 in_baseline = True
+            # a bounded harness runs the code on concrete, well-formed inputs that passed on the pinned tree: an exception there is an outcome
+            if r.get("engine") == "E2" and "/no_unexpected_exception@" in name and any(k.startswith(r["harness"] + "/") for k in baseline):
+                in_baseline = True
         if reproduced or same_prop_concrete:
             violations.append((path, "%s obligation failed: %s" % (r.get("engine", "E1"), name), ""))
         elif in_baseline:
